@@ -1,4 +1,442 @@
-import WnVerif.Model.Api
+/-
+C05 — `remove()` deletes a lexicon with everything it owns, leaves no dangling row and
+leaves the other lexicons alone (modulo the cascade through rows that referenced it).
+Theorems over `deleteLexicon` / `removeLexicon` (`Model/Remove.lean`) for every database.
+-/
+import WnVerif.Model.Remove
 namespace WnVerif.Props.C05
-theorem placeholder_true : True := trivial
+open WnVerif.Db
+
+/-- referential integrity of the store: every `REFERENCES … ON DELETE CASCADE / SET NULL`
+column of `schema.sql` points at an existing row -/
+structure FK (db : Db) : Prop where
+  deps_dependent : ∀ r ∈ db.deps, ∃ x ∈ db.lexicons, x.rowid = r.dependent
+  deps_provider : ∀ r ∈ db.deps, ∀ p, r.provider = some p → ∃ x ∈ db.lexicons, x.rowid = p
+  exts_ext : ∀ r ∈ db.exts, ∃ x ∈ db.lexicons, x.rowid = r.ext
+  entries_lex : ∀ r ∈ db.entries, ∃ x ∈ db.lexicons, x.rowid = r.lex
+  forms_lex : ∀ r ∈ db.forms, ∃ x ∈ db.lexicons, x.rowid = r.lex
+  forms_entry : ∀ r ∈ db.forms, ∃ x ∈ db.entries, x.rowid = r.entry
+  prons_form : ∀ r ∈ db.prons, ∃ x ∈ db.forms, x.rowid = r.form
+  tags_form : ∀ r ∈ db.tags, ∃ x ∈ db.forms, x.rowid = r.form
+  synsets_lex : ∀ r ∈ db.synsets, ∃ x ∈ db.lexicons, x.rowid = r.lex
+  synrels_lex : ∀ r ∈ db.synrels, ∃ x ∈ db.lexicons, x.rowid = r.lex
+  synrels_source : ∀ r ∈ db.synrels, ∃ x ∈ db.synsets, x.rowid = r.source
+  synrels_target : ∀ r ∈ db.synrels, ∃ x ∈ db.synsets, x.rowid = r.target
+  defs_lex : ∀ r ∈ db.defs, ∃ x ∈ db.lexicons, x.rowid = r.lex
+  defs_synset : ∀ r ∈ db.defs, ∃ x ∈ db.synsets, x.rowid = r.synset
+  defs_sense : ∀ r ∈ db.defs, ∀ s, r.sense = some s → ∃ x ∈ db.senses, x.rowid = s
+  synexs_lex : ∀ r ∈ db.synexs, ∃ x ∈ db.lexicons, x.rowid = r.lex
+  synexs_owner : ∀ r ∈ db.synexs, ∃ x ∈ db.synsets, x.rowid = r.owner
+  senses_lex : ∀ r ∈ db.senses, ∃ x ∈ db.lexicons, x.rowid = r.lex
+  senses_entry : ∀ r ∈ db.senses, ∃ x ∈ db.entries, x.rowid = r.entry
+  senses_synset : ∀ r ∈ db.senses, ∃ x ∈ db.synsets, x.rowid = r.synset
+  senserels_lex : ∀ r ∈ db.senserels, ∃ x ∈ db.lexicons, x.rowid = r.lex
+  senserels_source : ∀ r ∈ db.senserels, ∃ x ∈ db.senses, x.rowid = r.source
+  senserels_target : ∀ r ∈ db.senserels, ∃ x ∈ db.senses, x.rowid = r.target
+  ssrels_lex : ∀ r ∈ db.sensesynrels, ∃ x ∈ db.lexicons, x.rowid = r.lex
+  ssrels_source : ∀ r ∈ db.sensesynrels, ∃ x ∈ db.senses, x.rowid = r.source
+  ssrels_target : ∀ r ∈ db.sensesynrels, ∃ x ∈ db.synsets, x.rowid = r.target
+  adjs_sense : ∀ r ∈ db.adjs, ∃ x ∈ db.senses, x.rowid = r.sense
+  sensexs_lex : ∀ r ∈ db.sensexs, ∃ x ∈ db.lexicons, x.rowid = r.lex
+  sensexs_owner : ∀ r ∈ db.sensexs, ∃ x ∈ db.senses, x.rowid = r.owner
+  counts_lex : ∀ r ∈ db.counts, ∃ x ∈ db.lexicons, x.rowid = r.lex
+  counts_sense : ∀ r ∈ db.counts, ∃ x ∈ db.senses, x.rowid = r.sense
+  sbs_lex : ∀ r ∈ db.sbs, ∃ x ∈ db.lexicons, x.rowid = r.lex
+  sbsenses_sb : ∀ r ∈ db.sbsenses, ∃ x ∈ db.sbs, x.rowid = r.sb
+  sbsenses_sense : ∀ r ∈ db.sbsenses, ∃ x ∈ db.senses, x.rowid = r.sense
+  pilis_synset : ∀ r ∈ db.pilis, ∃ x ∈ db.synsets, x.rowid = r.synset
+
+theorem FK_empty : FK Db.empty := by
+  constructor <;> simp [Db.empty]
+
+/-! ### the cascade sets -/
+theorem mem_entriesDel (db : Db) (l k : Nat) : k ∈ entriesDel db l ↔ ∃ e ∈ db.entries, e.lex = l ∧ e.rowid = k := by
+  simp [entriesDel, and_assoc]
+theorem mem_synsetsDel (db : Db) (l k : Nat) : k ∈ synsetsDel db l ↔ ∃ e ∈ db.synsets, e.lex = l ∧ e.rowid = k := by
+  simp [synsetsDel, and_assoc]
+theorem mem_formsDel (db : Db) (l k : Nat) : k ∈ formsDel db l ↔ ∃ e ∈ db.forms, formGone db l e = true ∧ e.rowid = k := by
+  simp [formsDel, and_assoc]
+theorem mem_sensesDel (db : Db) (l k : Nat) : k ∈ sensesDel db l ↔ ∃ e ∈ db.senses, senseGone db l e = true ∧ e.rowid = k := by
+  simp [sensesDel, and_assoc]
+theorem mem_sbsDel (db : Db) (l k : Nat) : k ∈ sbsDel db l ↔ ∃ e ∈ db.sbs, e.lex = l ∧ e.rowid = k := by
+  simp [sbsDel, and_assoc]
+
+@[simp] theorem unlinkSense_lex (g : List Nat) (r : RDef) : (unlinkSense g r).lex = r.lex := by
+  unfold unlinkSense; split
+  · split <;> rfl
+  · rfl
+@[simp] theorem unlinkSense_synset (g : List Nat) (r : RDef) : (unlinkSense g r).synset = r.synset := by
+  unfold unlinkSense; split
+  · split <;> rfl
+  · rfl
+@[simp] theorem unlinkSense_text (g : List Nat) (r : RDef) : (unlinkSense g r).text = r.text := by
+  unfold unlinkSense; split
+  · split <;> rfl
+  · rfl
+theorem unlinkSense_sense (g : List Nat) (r : RDef) (s : Nat) (h : (unlinkSense g r).sense = some s) :
+    r.sense = some s ∧ s ∉ g := by
+  unfold unlinkSense at h
+  split at h
+  · rename_i s' hs'
+    split at h
+    · simp at h
+    · rename_i hc
+      rw [hs'] at h
+      cases h
+      exact ⟨hs', by simpa using hc⟩
+  · rename_i hn; rw [hn] at h; simp at h
+@[simp] theorem unlinkProvider_dependent (l : Nat) (r : RDep) : (unlinkProvider l r).dependent = r.dependent := by
+  unfold unlinkProvider; split <;> rfl
+@[simp] theorem unlinkProvider_pid (l : Nat) (r : RDep) : (unlinkProvider l r).pid = r.pid := by
+  unfold unlinkProvider; split <;> rfl
+@[simp] theorem unlinkProvider_pver (l : Nat) (r : RDep) : (unlinkProvider l r).pver = r.pver := by
+  unfold unlinkProvider; split <;> rfl
+@[simp] theorem unlinkProvider_purl (l : Nat) (r : RDep) : (unlinkProvider l r).purl = r.purl := by
+  unfold unlinkProvider; split <;> rfl
+theorem unlinkProvider_provider (l : Nat) (r : RDep) :
+    (unlinkProvider l r).provider = if r.provider = some l then none else r.provider := by
+  unfold unlinkProvider
+  by_cases h : r.provider = some l <;> simp [h]
+
+/-! ### what remains after `DELETE FROM lexicons WHERE rowid = l` -/
+
+/-- the lexicon row itself is gone -/
+theorem C05_lexicon_gone (db : Db) (l : Nat) : ∀ x ∈ (deleteLexicon db l).lexicons, x.rowid ≠ l := by
+  intro x hx
+  simp only [deleteLexicon, List.mem_filter] at hx
+  simpa using hx.2
+
+/-- nothing owned by the removed lexicon remains in any owned table -/
+theorem C05_nothing_owned_remains (db : Db) (l : Nat) :
+    (∀ r ∈ (deleteLexicon db l).entries, r.lex ≠ l) ∧ (∀ r ∈ (deleteLexicon db l).forms, r.lex ≠ l) ∧
+    (∀ r ∈ (deleteLexicon db l).synsets, r.lex ≠ l) ∧ (∀ r ∈ (deleteLexicon db l).senses, r.lex ≠ l) ∧
+    (∀ r ∈ (deleteLexicon db l).synrels, r.lex ≠ l) ∧ (∀ r ∈ (deleteLexicon db l).senserels, r.lex ≠ l) ∧
+    (∀ r ∈ (deleteLexicon db l).sensesynrels, r.lex ≠ l) ∧ (∀ r ∈ (deleteLexicon db l).defs, r.lex ≠ l) ∧
+    (∀ r ∈ (deleteLexicon db l).synexs, r.lex ≠ l) ∧ (∀ r ∈ (deleteLexicon db l).sensexs, r.lex ≠ l) ∧
+    (∀ r ∈ (deleteLexicon db l).counts, r.lex ≠ l) ∧ (∀ r ∈ (deleteLexicon db l).sbs, r.lex ≠ l) ∧
+    (∀ r ∈ (deleteLexicon db l).deps, r.dependent ≠ l) ∧ (∀ r ∈ (deleteLexicon db l).exts, r.ext ≠ l) := by
+  refine ⟨?_, ?_, ?_, ?_, ?_, ?_, ?_, ?_, ?_, ?_, ?_, ?_, ?_, ?_⟩ <;> intro r hr <;>
+    simp only [deleteLexicon, List.mem_filter, List.mem_map] at hr
+  · simpa using hr.2
+  · have := hr.2; simp [formGone] at this; exact this.1
+  · simpa using hr.2
+  · have := hr.2; simp [senseGone] at this; exact this.1.1
+  · have := hr.2; simp at this; exact this.1.1
+  · have := hr.2; simp at this; exact this.1.1
+  · have := hr.2; simp at this; exact this.1.1
+  · obtain ⟨a, ⟨_, ha⟩, rfl⟩ := hr
+    simp at ha; simpa using ha.1
+  · have := hr.2; simp at this; exact this.1
+  · have := hr.2; simp at this; exact this.1
+  · have := hr.2; simp at this; exact this.1
+  · simpa using hr.2
+  · obtain ⟨a, ⟨_, ha⟩, rfl⟩ := hr
+    simpa using ha
+  · simpa using hr.2
+
+/-- no dependency of another lexicon still points at the removed one (`ON DELETE SET NULL`) -/
+theorem C05_dependency_unlinked (db : Db) (l : Nat) : ∀ r ∈ (deleteLexicon db l).deps, r.provider ≠ some l := by
+  intro r hr
+  simp only [deleteLexicon, List.mem_map, List.mem_filter] at hr
+  obtain ⟨a, _, rfl⟩ := hr
+  rw [unlinkProvider_provider]
+  split
+  · simp
+  · assumption
+
+/-- … and the dependency row itself survives, with its declared id, version and url -/
+theorem C05_dependency_kept (db : Db) (l : Nat) (r : RDep) (h : r ∈ db.deps) (hd : r.dependent ≠ l) :
+    ∃ r' ∈ (deleteLexicon db l).deps, r'.dependent = r.dependent ∧ r'.pid = r.pid ∧ r'.pver = r.pver ∧ r'.purl = r.purl ∧
+      (r'.provider = if r.provider = some l then none else r.provider) := by
+  refine ⟨unlinkProvider l r, ?_, by simp, by simp, by simp, by simp, unlinkProvider_provider l r⟩
+  simp only [deleteLexicon, List.mem_map, List.mem_filter]
+  exact ⟨r, ⟨h, by simpa using hd⟩, rfl⟩
+
+/-! ### keeping what is not reached by the cascade -/
+theorem keepLex (db : Db) (l k : Nat) (hk : k ≠ l) (h : ∃ x ∈ db.lexicons, x.rowid = k) :
+    ∃ x ∈ (deleteLexicon db l).lexicons, x.rowid = k := by
+  obtain ⟨x, hx, hxk⟩ := h
+  exact ⟨x, by simp only [deleteLexicon, List.mem_filter]; exact ⟨hx, by simpa [hxk] using hk⟩, hxk⟩
+theorem keepEntry (db : Db) (l k : Nat) (hk : k ∉ entriesDel db l) (h : ∃ x ∈ db.entries, x.rowid = k) :
+    ∃ x ∈ (deleteLexicon db l).entries, x.rowid = k := by
+  obtain ⟨x, hx, hxk⟩ := h
+  refine ⟨x, ?_, hxk⟩
+  simp only [deleteLexicon, List.mem_filter]
+  refine ⟨hx, ?_⟩
+  simp only [bne_iff_ne, ne_eq]
+  intro hl
+  exact hk ((mem_entriesDel db l k).mpr ⟨x, hx, hl, hxk⟩)
+theorem keepSynset (db : Db) (l k : Nat) (hk : k ∉ synsetsDel db l) (h : ∃ x ∈ db.synsets, x.rowid = k) :
+    ∃ x ∈ (deleteLexicon db l).synsets, x.rowid = k := by
+  obtain ⟨x, hx, hxk⟩ := h
+  refine ⟨x, ?_, hxk⟩
+  simp only [deleteLexicon, List.mem_filter]
+  refine ⟨hx, ?_⟩
+  simp only [bne_iff_ne, ne_eq]
+  intro hl
+  exact hk ((mem_synsetsDel db l k).mpr ⟨x, hx, hl, hxk⟩)
+theorem keepForm (db : Db) (l k : Nat) (hk : k ∉ formsDel db l) (h : ∃ x ∈ db.forms, x.rowid = k) :
+    ∃ x ∈ (deleteLexicon db l).forms, x.rowid = k := by
+  obtain ⟨x, hx, hxk⟩ := h
+  refine ⟨x, ?_, hxk⟩
+  simp only [deleteLexicon, List.mem_filter]
+  refine ⟨hx, ?_⟩
+  simp only [Bool.not_eq_eq_eq_not, Bool.not_true]
+  cases hg : formGone db l x
+  · rfl
+  · exact absurd ((mem_formsDel db l k).mpr ⟨x, hx, hg, hxk⟩) hk
+theorem keepSense (db : Db) (l k : Nat) (hk : k ∉ sensesDel db l) (h : ∃ x ∈ db.senses, x.rowid = k) :
+    ∃ x ∈ (deleteLexicon db l).senses, x.rowid = k := by
+  obtain ⟨x, hx, hxk⟩ := h
+  refine ⟨x, ?_, hxk⟩
+  simp only [deleteLexicon, List.mem_filter]
+  refine ⟨hx, ?_⟩
+  simp only [Bool.not_eq_eq_eq_not, Bool.not_true]
+  cases hg : senseGone db l x
+  · rfl
+  · exact absurd ((mem_sensesDel db l k).mpr ⟨x, hx, hg, hxk⟩) hk
+theorem keepSb (db : Db) (l k : Nat) (hk : k ∉ sbsDel db l) (h : ∃ x ∈ db.sbs, x.rowid = k) :
+    ∃ x ∈ (deleteLexicon db l).sbs, x.rowid = k := by
+  obtain ⟨x, hx, hxk⟩ := h
+  refine ⟨x, ?_, hxk⟩
+  simp only [deleteLexicon, List.mem_filter]
+  refine ⟨hx, ?_⟩
+  simp only [bne_iff_ne, ne_eq]
+  intro hl
+  exact hk ((mem_sbsDel db l k).mpr ⟨x, hx, hl, hxk⟩)
+
+/-- referential integrity is preserved: no dangling row remains -/
+theorem C05_no_dangling (db : Db) (l : Nat) (h : FK db) : FK (deleteLexicon db l) := by
+  constructor
+  · intro r hr
+    simp only [deleteLexicon, List.mem_map, List.mem_filter] at hr
+    obtain ⟨a, ⟨ha, hne⟩, rfl⟩ := hr
+    simpa using keepLex db l a.dependent (by simpa using hne) (h.deps_dependent a ha)
+  · intro r hr p hp
+    simp only [deleteLexicon, List.mem_map, List.mem_filter] at hr
+    obtain ⟨a, ⟨ha, _⟩, rfl⟩ := hr
+    rw [unlinkProvider_provider] at hp
+    split at hp
+    · simp at hp
+    · rename_i hnp
+      exact keepLex db l p (by intro e; subst e; exact hnp hp) (h.deps_provider a ha p hp)
+  · intro r hr
+    simp only [deleteLexicon, List.mem_filter] at hr
+    exact keepLex db l r.ext (by simpa using hr.2) (h.exts_ext r hr.1)
+  · intro r hr
+    simp only [deleteLexicon, List.mem_filter] at hr
+    exact keepLex db l r.lex (by simpa using hr.2) (h.entries_lex r hr.1)
+  · intro r hr
+    simp only [deleteLexicon, List.mem_filter] at hr
+    have h2 := hr.2; simp [formGone] at h2
+    exact keepLex db l r.lex h2.1 (h.forms_lex r hr.1)
+  · intro r hr
+    simp only [deleteLexicon, List.mem_filter] at hr
+    have h2 := hr.2; simp [formGone] at h2
+    exact keepEntry db l r.entry (by simpa using h2.2) (h.forms_entry r hr.1)
+  · intro r hr
+    simp only [deleteLexicon, List.mem_filter] at hr
+    exact keepForm db l r.form (by simpa using hr.2) (h.prons_form r hr.1)
+  · intro r hr
+    simp only [deleteLexicon, List.mem_filter] at hr
+    exact keepForm db l r.form (by simpa using hr.2) (h.tags_form r hr.1)
+  · intro r hr
+    simp only [deleteLexicon, List.mem_filter] at hr
+    exact keepLex db l r.lex (by simpa using hr.2) (h.synsets_lex r hr.1)
+  · intro r hr
+    simp only [deleteLexicon, List.mem_filter] at hr
+    have h2 := hr.2; simp at h2
+    exact keepLex db l r.lex h2.1.1 (h.synrels_lex r hr.1)
+  · intro r hr
+    simp only [deleteLexicon, List.mem_filter] at hr
+    have h2 := hr.2; simp at h2
+    exact keepSynset db l r.source (by simpa using h2.1.2) (h.synrels_source r hr.1)
+  · intro r hr
+    simp only [deleteLexicon, List.mem_filter] at hr
+    have h2 := hr.2; simp at h2
+    exact keepSynset db l r.target (by simpa using h2.2) (h.synrels_target r hr.1)
+  · intro r hr
+    simp only [deleteLexicon, List.mem_map, List.mem_filter] at hr
+    obtain ⟨a, ⟨ha, h2⟩, rfl⟩ := hr
+    simp at h2
+    simpa using keepLex db l a.lex h2.1 (h.defs_lex a ha)
+  · intro r hr
+    simp only [deleteLexicon, List.mem_map, List.mem_filter] at hr
+    obtain ⟨a, ⟨ha, h2⟩, rfl⟩ := hr
+    simp at h2
+    simpa using keepSynset db l a.synset (by simpa using h2.2) (h.defs_synset a ha)
+  · intro r hr s hs
+    simp only [deleteLexicon, List.mem_map, List.mem_filter] at hr
+    obtain ⟨a, ⟨ha, _⟩, rfl⟩ := hr
+    obtain ⟨hs1, hs2⟩ := unlinkSense_sense _ _ _ hs
+    exact keepSense db l s hs2 (h.defs_sense a ha s hs1)
+  · intro r hr
+    simp only [deleteLexicon, List.mem_filter] at hr
+    have h2 := hr.2; simp at h2
+    exact keepLex db l r.lex h2.1 (h.synexs_lex r hr.1)
+  · intro r hr
+    simp only [deleteLexicon, List.mem_filter] at hr
+    have h2 := hr.2; simp at h2
+    exact keepSynset db l r.owner (by simpa using h2.2) (h.synexs_owner r hr.1)
+  · intro r hr
+    simp only [deleteLexicon, List.mem_filter] at hr
+    have h2 := hr.2; simp [senseGone] at h2
+    exact keepLex db l r.lex h2.1.1 (h.senses_lex r hr.1)
+  · intro r hr
+    simp only [deleteLexicon, List.mem_filter] at hr
+    have h2 := hr.2; simp [senseGone] at h2
+    exact keepEntry db l r.entry (by simpa using h2.1.2) (h.senses_entry r hr.1)
+  · intro r hr
+    simp only [deleteLexicon, List.mem_filter] at hr
+    have h2 := hr.2; simp [senseGone] at h2
+    exact keepSynset db l r.synset (by simpa using h2.2) (h.senses_synset r hr.1)
+  · intro r hr
+    simp only [deleteLexicon, List.mem_filter] at hr
+    have h2 := hr.2; simp at h2
+    exact keepLex db l r.lex h2.1.1 (h.senserels_lex r hr.1)
+  · intro r hr
+    simp only [deleteLexicon, List.mem_filter] at hr
+    have h2 := hr.2; simp at h2
+    exact keepSense db l r.source (by simpa using h2.1.2) (h.senserels_source r hr.1)
+  · intro r hr
+    simp only [deleteLexicon, List.mem_filter] at hr
+    have h2 := hr.2; simp at h2
+    exact keepSense db l r.target (by simpa using h2.2) (h.senserels_target r hr.1)
+  · intro r hr
+    simp only [deleteLexicon, List.mem_filter] at hr
+    have h2 := hr.2; simp at h2
+    exact keepLex db l r.lex h2.1.1 (h.ssrels_lex r hr.1)
+  · intro r hr
+    simp only [deleteLexicon, List.mem_filter] at hr
+    have h2 := hr.2; simp at h2
+    exact keepSense db l r.source (by simpa using h2.1.2) (h.ssrels_source r hr.1)
+  · intro r hr
+    simp only [deleteLexicon, List.mem_filter] at hr
+    have h2 := hr.2; simp at h2
+    exact keepSynset db l r.target (by simpa using h2.2) (h.ssrels_target r hr.1)
+  · intro r hr
+    simp only [deleteLexicon, List.mem_filter] at hr
+    exact keepSense db l r.sense (by simpa using hr.2) (h.adjs_sense r hr.1)
+  · intro r hr
+    simp only [deleteLexicon, List.mem_filter] at hr
+    have h2 := hr.2; simp at h2
+    exact keepLex db l r.lex h2.1 (h.sensexs_lex r hr.1)
+  · intro r hr
+    simp only [deleteLexicon, List.mem_filter] at hr
+    have h2 := hr.2; simp at h2
+    exact keepSense db l r.owner (by simpa using h2.2) (h.sensexs_owner r hr.1)
+  · intro r hr
+    simp only [deleteLexicon, List.mem_filter] at hr
+    have h2 := hr.2; simp at h2
+    exact keepLex db l r.lex h2.1 (h.counts_lex r hr.1)
+  · intro r hr
+    simp only [deleteLexicon, List.mem_filter] at hr
+    have h2 := hr.2; simp at h2
+    exact keepSense db l r.sense (by simpa using h2.2) (h.counts_sense r hr.1)
+  · intro r hr
+    simp only [deleteLexicon, List.mem_filter] at hr
+    exact keepLex db l r.lex (by simpa using hr.2) (h.sbs_lex r hr.1)
+  · intro r hr
+    simp only [deleteLexicon, List.mem_filter] at hr
+    have h2 := hr.2; simp at h2
+    exact keepSb db l r.sb (by simpa using h2.1) (h.sbsenses_sb r hr.1)
+  · intro r hr
+    simp only [deleteLexicon, List.mem_filter] at hr
+    have h2 := hr.2; simp at h2
+    exact keepSense db l r.sense (by simpa using h2.2) (h.sbsenses_sense r hr.1)
+  · intro r hr
+    simp only [deleteLexicon, List.mem_filter] at hr
+    exact keepSynset db l r.synset (by simpa using hr.2) (h.pilis_synset r hr.1)
+
+/-! ### `remove()`: extensions first, then the lexicon -/
+
+theorem foldl_delete_FK (L : List Nat) : ∀ (db : Db), FK db → FK (L.foldl deleteLexicon db) := by
+  induction L with
+  | nil => intro db h; exact h
+  | cons a t ih => intro db h; exact ih _ (C05_no_dangling db a h)
+
+/-- `remove()` of one lexicon leaves no dangling row -/
+theorem C05_remove_no_dangling (db : Db) (l : Nat) (h : FK db) : FK (removeLexicon db l) := by
+  unfold removeLexicon
+  exact C05_no_dangling _ l (foldl_delete_FK _ db h)
+
+theorem foldl_delete_lexicons (L : List Nat) : ∀ (db : Db),
+    (L.foldl deleteLexicon db).lexicons = db.lexicons.filter (fun r => !L.contains r.rowid) := by
+  induction L with
+  | nil => intro db; exact (List.filter_eq_self.mpr (by simp)).symm
+  | cons a t ih =>
+    intro db
+    simp only [List.foldl_cons, ih]
+    simp only [deleteLexicon, List.filter_filter]
+    congr 1
+    funext r
+    by_cases h1 : r.rowid = a <;> simp [h1]
+
+/-- after `remove()` the lexicon and every lexicon of `get_lexicon_extensions` are gone,
+and every other lexicon row is still there, unchanged -/
+theorem C05_remove_lexicons (db : Db) (l : Nat) :
+    (removeLexicon db l).lexicons =
+      db.lexicons.filter (fun r => r.rowid != l && !(extensionsOf db (db.lexicons.length + 1) l).contains r.rowid) := by
+  unfold removeLexicon
+  show (deleteLexicon _ l).lexicons = _
+  simp only [deleteLexicon]
+  rw [foldl_delete_lexicons, List.filter_filter]
+  congr 1
+  funext r
+  simp
+
+/-- a lexicon that is neither removed nor one of its extensions keeps its row -/
+theorem C05_other_lexicons_kept (db : Db) (l : Nat) (x : RLexicon) (hx : x ∈ db.lexicons) (h1 : x.rowid ≠ l)
+    (h2 : x.rowid ∉ extensionsOf db (db.lexicons.length + 1) l) : x ∈ (removeLexicon db l).lexicons := by
+  rw [C05_remove_lexicons]
+  simp only [List.mem_filter, Bool.and_eq_true]
+  exact ⟨hx, by simpa using h1, by simpa using h2⟩
+
+/-! ### frame: rows that reference nothing removed survive unchanged -/
+theorem C05_entry_survives_iff (db : Db) (l : Nat) (r : REntry) :
+    r ∈ (deleteLexicon db l).entries ↔ r ∈ db.entries ∧ r.lex ≠ l := by
+  simp [deleteLexicon]
+theorem C05_synset_survives_iff (db : Db) (l : Nat) (r : RSynset) :
+    r ∈ (deleteLexicon db l).synsets ↔ r ∈ db.synsets ∧ r.lex ≠ l := by
+  simp [deleteLexicon]
+theorem C05_sense_survives_iff (db : Db) (l : Nat) (r : RSense) :
+    r ∈ (deleteLexicon db l).senses ↔
+      r ∈ db.senses ∧ r.lex ≠ l ∧ (∀ e ∈ db.entries, e.lex = l → e.rowid ≠ r.entry) ∧
+        (∀ y ∈ db.synsets, y.lex = l → y.rowid ≠ r.synset) := by
+  simp only [deleteLexicon, List.mem_filter, senseGone, entriesDel, synsetsDel]
+  simp [and_assoc]
+theorem C05_form_survives_iff (db : Db) (l : Nat) (r : RForm) :
+    r ∈ (deleteLexicon db l).forms ↔
+      r ∈ db.forms ∧ r.lex ≠ l ∧ (∀ e ∈ db.entries, e.lex = l → e.rowid ≠ r.entry) := by
+  simp only [deleteLexicon, List.mem_filter, formGone, entriesDel]
+  simp [and_assoc]
+theorem C05_synrel_survives_iff (db : Db) (l : Nat) (r : RRel) :
+    r ∈ (deleteLexicon db l).synrels ↔
+      r ∈ db.synrels ∧ r.lex ≠ l ∧ (∀ y ∈ db.synsets, y.lex = l → y.rowid ≠ r.source) ∧
+        (∀ y ∈ db.synsets, y.lex = l → y.rowid ≠ r.target) := by
+  simp only [deleteLexicon, List.mem_filter, synsetsDel]
+  simp [and_assoc]
+
+/-- the lookup tables (relation types, ILI statuses, lexfiles) and the ILI table are not touched -/
+theorem C05_shared_tables_untouched (db : Db) (l : Nat) :
+    (deleteLexicon db l).ilis = db.ilis ∧ (deleteLexicon db l).reltypes = db.reltypes ∧
+    (deleteLexicon db l).ilistatuses = db.ilistatuses ∧ (deleteLexicon db l).lexfiles = db.lexfiles :=
+  ⟨rfl, rfl, rfl, rfl⟩
+
+/-! ### non-vacuity: a store with a base, an extension and a dependant -/
+def demo : Db :=
+  { lexicons := [⟨1, "a", "A", "en", "e", "l", "1", none, none, none, none⟩, ⟨2, "x", "X", "en", "e", "l", "1", none, none, none, none⟩,
+                 ⟨3, "b", "B", "en", "e", "l", "1", none, none, none, none⟩]
+    exts := [⟨2, "a", "1", none, some 1⟩]
+    deps := [⟨3, "a", "1", none, some 1⟩]
+    entries := [⟨1, "e1", 1, "n", none⟩, ⟨2, "e2", 3, "n", none⟩]
+    forms := [⟨1, none, 1, 1, "cat", none, none, 0⟩, ⟨2, none, 2, 1, "cats", none, none, 1⟩, ⟨3, none, 3, 2, "dog", none, none, 0⟩]
+    synsets := [⟨1, "s1", 1, none, "n", true, none, none⟩, ⟨2, "s2", 3, none, "n", true, none, none⟩]
+    senses := [⟨1, "n1", 1, 1, 0, 1, 0, true, none⟩, ⟨2, "n2", 3, 2, 0, 2, 0, true, none⟩] }
+
+example : (removeLexicon demo 1).lexicons.map (·.id) = ["b"] := by decide
+example : (removeLexicon demo 1).forms.map (·.form) = ["dog"] := by decide
+example : (removeLexicon demo 1).deps = [⟨3, "a", "1", none, none⟩] := by decide
+example : extensionsOf demo 4 1 = [2] := by decide
+
 end WnVerif.Props.C05
